@@ -47,6 +47,11 @@ pub struct Report {
     pub sched_steps: u64,
     pub panic: Option<String>,
     pub notes: Vec<String>,
+    /// Dry mode only: for every step the sites of its mutating events, in order ("site:file").
+    #[serde(default)]
+    pub step_events: Vec<Vec<String>>,
+    #[serde(default)]
+    pub rules_checked: u64,
 }
 
 pub type Shared = Arc<Mutex<Report>>;
@@ -160,7 +165,16 @@ impl<'a, H: HashAlgorithm> Exec<'a, H> {
         let s = StepSnap { old: self.model.cur.clone(), new, seqn_old: self.model.seqn, seqn_new: self.model.seqn + bumps_seqn as u32, opts: self.opts.clone(), old_retained: self.model.retained, old_history: self.model.history.clone(), returned_ok: false };
         self.snaps.insert(self.step, s);
     }
-    fn snap_ok(&mut self) { if let Some(s) = self.snaps.get_mut(&self.step) { s.returned_ok = true; } }
+    fn snap_ok(&mut self) {
+        let Some(s) = self.snaps.get_mut(&self.step) else { return };
+        s.returned_ok = true;
+        // acknowledged => durable: power-loss images taken right after the operation returned
+        let n = self.scen.extra.get("post_power").and_then(|x| x.as_u64()).unwrap_or(0);
+        for j in 0..n {
+            let pattern = crate::rng::mix(self.scen.run_seed ^ (self.step as u64) << 20 ^ j);
+            self.disk.fork_power_image_rec(&self.dir, if j == 0 { 0 } else { pattern }, self.step, "quiescent");
+        }
+    }
 
     /// An operation returned `Err`. Legitimate only if an injected error was delivered during this
     /// step or the hash table ran out of buckets; then C14's obligations are checked.
@@ -184,6 +198,7 @@ impl<'a, H: HashAlgorithm> Exec<'a, H> {
             Err(_) => {}
         }
         // drop, stop injecting, reopen: exactly old or new
+        self.quiesce();
         let old = self.model.cur.clone();
         for (_, n) in self.overlays.iter_mut() { if n.status == OvStatus::Live { n.overlay = None; n.status = OvStatus::Dropped; } }
         drop(self.nomt.take());
@@ -215,6 +230,21 @@ impl<'a, H: HashAlgorithm> Exec<'a, H> {
         self.check_values(&st, None).map_err(|Viol(mut v)| { v.property = "C14".into(); v.class = format!("failed-commit-{}", v.class); Viol(v) })?;
         rep!(self).notes.push(format!("step {}: failed operation handled ({what}); reopened as {}", self.step, if chosen_new { "new" } else { "old" }));
         Ok(())
+    }
+
+    /// Let the background tasks of a failed operation run until nothing but the caller is runnable.
+    /// (After an injected failure the call returns early while other workers of the same sync are
+    /// still going; dropping the handle under them makes them panic on the closed I/O pool, which
+    /// nomt swallows but the scheduler cannot unwind through.)
+    pub fn quiesce(&self) {
+        use std::sync::atomic::Ordering;
+        let mut last = simrt::SYNC_OPS.load(Ordering::Relaxed);
+        let mut calm = 0u32;
+        for _ in 0..3_000_000u32 {
+            simrt::shuttle::thread::yield_now();
+            let now = simrt::SYNC_OPS.load(Ordering::Relaxed);
+            if now == last { calm += 1; if calm >= 4000 { break; } } else { calm = 0; last = now; }
+        }
     }
 
     fn swallowed(&mut self) -> R<()> {
@@ -571,10 +601,21 @@ impl<'a, H: HashAlgorithm> Exec<'a, H> {
             if self.scen.checks.multiproof { self.check_multiproof(&proofs, &st, &trie, self.scen.run_seed.wrapping_add(self.step as u64))?; }
         }
         if self.scen.checks.decode || self.scen.checks.accounting { self.check_decode()?; }
+        if self.scen.checks.rules { self.check_rules()?; }
         if let Some(every) = self.scen.extra.get("rollback_history_every").and_then(|x| x.as_u64()) {
             if every > 0 && (self.step as u64 + 1) % every == 0 { let p = self.prop.clone(); self.check_rollback_history(&p)?; }
         }
         Ok(())
+    }
+
+    /// C04 ordering rules over the I/O trace of the step that just finished.
+    pub fn check_rules(&mut self) -> R<()> {
+        let main = self.disk.main_dir_id();
+        let tr: Vec<crate::disk::EventRec> = self.disk.trace().into_iter().filter(|e| e.step == self.step && e.dir == main).collect();
+        match crate::rules::check_sync_rules(&tr) {
+            Ok(n) => { rep!(self).rules_checked += n; Ok(()) }
+            Err((class, detail)) => Err(self.v("C04", &class, detail)),
+        }
     }
 
     fn proof_sample(&self) -> Vec<Key> {
